@@ -89,6 +89,10 @@ func candidates(r *FuncResult, o *Oblig) []*Term {
 // (it can only make an obligation harder to discharge), so level 0 answers
 // "unsat" are final and anything else is retried at level 1.
 func buildQuery(r *FuncResult, o *Oblig, level int) string {
+	return buildQueryWatch(r, o, level, nil)
+}
+
+func buildQueryWatch(r *FuncResult, o *Oblig, level int, watch []watchItem) string {
 	goal := And(o.Reach, Not(o.Goal))
 	cands := candidates(r, o)
 	syms := make([][]int, len(cands))
@@ -150,7 +154,48 @@ func buildQuery(r *FuncResult, o *Oblig, level int) string {
 		}
 	}
 	sc.Asserts = append(sc.Asserts, goal)
+	for _, w := range watch {
+		sc.Watch = append(sc.Watch, w.Term)
+	}
 	return sc.Render("ALL", nil)
+}
+
+// runSolverRaw runs a query that carries its own (get-value ...) list.
+func runSolverRaw(s solverSpec, query string, timeoutMs int) (string, string, float64) {
+	ctx, cancel := context.WithTimeout(context.Background(), time.Duration(timeoutMs+2000)*time.Millisecond)
+	defer cancel()
+	argv := s.argv(timeoutMs)
+	cmd := exec.CommandContext(ctx, argv[0], argv[1:]...)
+	full := query + "(check-sat)\n" + watchGetValue(query) + "\n"
+	if strings.HasPrefix(s.name, "cvc5") {
+		full = "(set-option :produce-models true)\n" + full
+	}
+	cmd.Stdin = strings.NewReader(full)
+	var buf bytes.Buffer
+	cmd.Stdout = &buf
+	cmd.Stderr = &buf
+	t0 := time.Now()
+	cmd.Run()
+	out := buf.String()
+	first := strings.TrimSpace(out)
+	if i := strings.Index(first, "\n"); i >= 0 {
+		first = first[:i]
+	}
+	return first, out, time.Since(t0).Seconds()
+}
+
+func watchGetValue(query string) string {
+	n := strings.Count(query, "(define-fun w!")
+	if n == 0 {
+		return ""
+	}
+	var sb strings.Builder
+	sb.WriteString("(get-value (")
+	for i := 0; i < n; i++ {
+		fmt.Fprintf(&sb, "w!%d ", i)
+	}
+	sb.WriteString("))")
+	return sb.String()
 }
 
 var modelRe = regexp.MustCompile(`\(define-fun\s+(\|[^|]*\||[^\s()]+)\s+\(\)\s+(Int|Bool|String)\s+((?s:.*?))\)\s*(?:\n|$)`)
